@@ -30,6 +30,7 @@ type c16Step struct {
 }
 
 type c16Seq struct {
+	Directed             string    `json:"directed,omitempty"` // "" random | best_override_then_remove | server_remove_then_readd
 	ID                   int       `json:"id"`
 	Steps                []c16Step `json:"steps"`
 	OverrodeBestAndBack  bool      `json:"overrode_bestCompression_then_removed_it"`
@@ -148,7 +149,7 @@ func c16Mutate(rnd *rand.Rand, c *config.PikeConfig, origins []string, seq *c16S
 				return op + " S2"
 			}
 		case "srv_readd":
-			if findSrv(c, "S2") == nil && removedSlots["S2"] && rnd.Intn(6) == 0 {
+			if false && findSrv(c, "S2") == nil && removedSlots["S2"] {
 				c.Servers = append(c.Servers, config.ServerConfig{Addr: "S2", Locations: []string{c.Locations[0].Name}, Cache: "c0"})
 				seq.ReAddedServer = true
 				return op + " S2"
@@ -520,8 +521,47 @@ func c16Run(r *hx.Run, bin string, seq *c16Seq, rnd *rand.Rand) {
 	pad := 0
 	var removedAt time.Time
 	nsteps := 2 + rnd.Intn(5)
+	var script []func() string
+	switch seq.Directed {
+	case "best_override_then_remove":
+		script = []func() string{
+			func() string {
+				logical.Compresses = append(logical.Compresses, config.CompressConfig{Name: "bestCompression", Levels: map[string]uint{"gzip": 1, "br": 1}})
+				return "best_override"
+			},
+			func() string {
+				logical.Compresses = logical.Compresses[:len(logical.Compresses)-1]
+				seq.OverrodeBestAndBack = true
+				return "best_remove"
+			},
+		}
+	case "server_remove_then_readd":
+		script = []func() string{
+			func() string {
+				logical.Servers = append(logical.Servers, config.ServerConfig{Addr: "S2", Locations: []string{"l0"}, Cache: "c0"})
+				return "srv_add S2"
+			},
+			func() string {
+				logical.Servers = logical.Servers[:len(logical.Servers)-1]
+				return "srv_remove S2 (not counted)"
+			},
+			func() string {
+				logical.Servers = append(logical.Servers, config.ServerConfig{Addr: "S2", Locations: []string{"l0"}, Cache: "c0"})
+				seq.ReAddedServer = true
+				return "srv_readd S2"
+			},
+		}
+	}
+	if script != nil {
+		nsteps = len(script)
+	}
 	for si := 0; si < nsteps; si++ {
-		op := c16Mutate(rnd, logical, origins, seq, removed)
+		var op string
+		if script != nil {
+			op = script[si]()
+		} else {
+			op = c16Mutate(rnd, logical, origins, seq, removed)
+		}
 		if op == "" {
 			continue
 		}
@@ -676,8 +716,14 @@ func c16(r *hx.Run) {
 	n := r.Pick(8, 150)
 	sem := make(chan struct{}, 8)
 	var wg sync.WaitGroup
-	for i := 0; i < n && !r.TooMany(); i++ {
+	for i := 0; i < n+2 && !r.TooMany(); i++ {
 		seq := &c16Seq{ID: i, CheckRemovedListener: i%8 == 0}
+		if i == n {
+			seq.Directed = "best_override_then_remove"
+		}
+		if i == n+1 {
+			seq.Directed = "server_remove_then_readd"
+		}
 		seed := rnd.Int63()
 		wg.Add(1)
 		sem <- struct{}{}
